@@ -31,6 +31,7 @@ pub fn gen_oligo_case(rng: &mut Rng, tier: &str, prop: &str) -> Case {
             mega_1_in: 15000,
             twin_mega_1_in: 0,
             many_1_in: 1500,
+            overflow_top_w: 1,
     };
     let mut records = g.gen(rng);
     // keep wide rows affordable: k >= 6 means thousands of columns per row
